@@ -57,6 +57,7 @@ Section PDiff.
           -- apply In_oget; auto. apply (pi_nodup _ _ Io).
           -- now apply ohas_false.
           -- rewrite SameId. apply (pi_logid _ _ Io). apply ents_In. eauto.
+          -- now apply (pi_in_U _ _ Io) in He.
   Qed.
 End PDiff.
 
@@ -402,29 +403,22 @@ Proof.
   destruct (In_oset_sound _ _ _ _ _ Hm) as [[-> ->]|?]; [right; now left|auto].
 Qed.
 
-Theorem join_heads_are_own_entries U l o size l' :
-  pinv U l -> well_keyed (l_entries o) -> size < 0 ->
-  join l o false size = (l', Ok tt) ->
-  forall k v, In (k, v) (l_heads l') -> In (k, v) (l_entries l').
+(* the merged entry map for an ARBITRARY other log: the held entries, untouched, plus new items that
+   are filed under their own hashes, none of which the log knew *)
+Lemma merged_entries_arbitrary U l o ni :
+  pinv U l -> difference (l_entries o) (oslice (l_heads o)) l = Some ni ->
+  NoDup (okeys (j_ents l ni)) /\ well_keyed (j_ents l ni) /\
+  forall k v, In (k, v) (j_ents l ni) <-> In (k, v) (l_entries l) \/ In (k, v) ni.
 Proof.
-  intros Il WKo Hs. unfold join, join_reads.
-  destruct (N.eqb_spec (l_id l) (l_id o)) as [Hid|Hid]; cbn [negb];
-    [|intros H; injection H as <-; intros k v Hh; now apply (pi_heads _ _ Il) in Hh].
-  destruct (difference (l_entries o) (oslice (l_heads o)) l) as [ni|] eqn:D; [|discriminate].
-  destruct (forallb (entry_ok l) (oslice ni)); cbn [negb]; [|discriminate].
-  assert (E : size <? 0 = true) by (apply Z.ltb_lt; lia). rewrite E.
-  intros H. injection H as <-. cbn [l_heads l_entries].
-  (* the new items are stored under their own hashes, none of which the log knew *)
+  intros Il D.
   assert (NI : NoDup (okeys ni) /\ forall k v, In (k, v) ni -> e_hash v = k /\ ~ In k (okeys (l_entries l))).
   { unfold difference in D. destruct (_ || _); [injection D as <-; split; [constructor|intros k v []]|].
     apply diff_loop_spec in D. destruct D as [A B]. split; [exact A|].
-    intros k v Hin. apply B in Hin. destruct Hin as [_ [G [O _]]]. split; [|now apply ohas_false].
-    apply oget_In in G. now apply WKo. }
+    intros k v Hin. apply B in Hin. destruct Hin as [_ [_ [O [_ HH]]]]. split; [exact HH|now apply ohas_false]. }
   destruct NI as [NIn NIs].
   assert (WKn : well_keyed ni) by (intros k v Hin; now apply NIs).
-  set (ents := fold_left (fun m e => oset m (e_hash e) e) (oslice ni) (l_entries l)).
-  assert (ES : NoDup (okeys ents) /\ forall k v, In (k, v) ents <-> In (k, v) (l_entries l) \/ In (k, v) ni).
-  { unfold ents. rewrite fold_entries_as_pairs, (oslice_pairs _ WKn).
+  assert (ES : NoDup (okeys (j_ents l ni)) /\ forall k v, In (k, v) (j_ents l ni) <-> In (k, v) (l_entries l) \/ In (k, v) ni).
+  { unfold j_ents. rewrite fold_entries_as_pairs, (oslice_pairs _ WKn).
     destruct (fold_oset_pairs ni (l_entries l) (pi_nodup _ _ Il)) as [A B].
     - intros k v1 v2 H1 H2. rewrite in_app_iff in H1, H2. destruct H1 as [H1|H1], H2 as [H2|H2].
       + exact (NoDup_functional _ (pi_nodup _ _ Il) k v1 v2 H1 H2).
@@ -432,9 +426,39 @@ Proof.
       + exfalso. apply (proj2 (NIs _ _ H1)). apply In_okeys. eauto.
       + exact (NoDup_functional _ NIn k v1 v2 H1 H2).
     - split; [exact A|]. intros k v. rewrite B, in_app_iff. tauto. }
-  destruct ES as [EN ES].
-  assert (WKe : well_keyed ents).
-  { intros k v Hin. apply ES in Hin. destruct Hin as [Hin|Hin]; [now apply (pi_in_U _ _ Il) in Hin|now apply NIs]. }
+  destruct ES as [EN ES]. split; [exact EN|]. split; [|exact ES].
+  intros k v Hin. apply ES in Hin. destruct Hin as [Hin|Hin]; [now apply (pi_in_U _ _ Il) in Hin|now apply NIs].
+Qed.
+
+(* whatever the other log is - no assumption on it at all - an unbounded merge keeps every held
+   entry under its hash, unchanged *)
+Theorem join_keeps_held_entries U l o same size l' out :
+  pinv U l -> size < 0 -> join l o same size = (l', out) ->
+  forall k v, In (k, v) (l_entries l) -> In (k, v) (l_entries l').
+Proof.
+  intros Il Hs. unfold join, join_reads.
+  destruct same; [intros H; injection H as <- _; auto|].
+  destruct (N.eqb (l_id l) (l_id o)); cbn [negb]; [|intros H; injection H as <- _; auto].
+  destruct (difference (l_entries o) (oslice (l_heads o)) l) as [ni|] eqn:D; [|intros H; injection H as <- _; auto].
+  destruct (forallb (entry_ok l) (oslice ni)); cbn [negb]; [|intros H; injection H as <- _; auto].
+  assert (E : size <? 0 = true) by (apply Z.ltb_lt; lia). rewrite E.
+  fold_j_ents l ni. intros H. injection H as <- _. cbn [l_entries]. intros k v Hin.
+  apply (proj2 (proj2 (merged_entries_arbitrary U l o ni Il D))). now left.
+Qed.
+
+Theorem join_heads_are_own_entries U l o size l' :
+  pinv U l -> size < 0 ->
+  join l o false size = (l', Ok tt) ->
+  forall k v, In (k, v) (l_heads l') -> In (k, v) (l_entries l').
+Proof.
+  intros Il Hs. unfold join, join_reads.
+  destruct (N.eqb_spec (l_id l) (l_id o)) as [Hid|Hid]; cbn [negb];
+    [|intros H; injection H as <-; intros k v Hh; now apply (pi_heads _ _ Il) in Hh].
+  destruct (difference (l_entries o) (oslice (l_heads o)) l) as [ni|] eqn:D; [|discriminate].
+  destruct (forallb (entry_ok l) (oslice ni)); cbn [negb]; [|discriminate].
+  assert (E : size <? 0 = true) by (apply Z.ltb_lt; lia). rewrite E.
+  fold_j_ents l ni. intros H. injection H as <-. cbn [l_heads l_entries].
+  destruct (merged_entries_arbitrary U l o ni Il D) as [EN [WKe ES]].
   intros k v Hh. unfold from_opt_entries in Hh. rewrite from_opt_filter in Hh.
   apply from_entries_In in Hh. destruct Hh as [Hv Hk]. apply filter_In in Hv. destruct Hv as [Hv _].
   apply find_heads_In in Hv. destruct Hv as [Hv _]. apply In_oslice in Hv. destruct Hv as [k' Hv].
